@@ -200,6 +200,30 @@ def r13_quota(ctx):
                     ctx.check(ok, R, a, g, 'V.epsilon is read only under inexact arithmetic (Rational has none; Guarded defines it only for guard 0)',
                               'not V.exact on this path' if ex == 'inexact' else 'rule forces arithmetic=%s' % forced,
                               'V.epsilon read on a path where the arithmetic may be exact: AttributeError (rational) or a stale/None value (guarded)')
+    # (d) the quota is computed before it is first compared, recorded or reported
+    for ri in rules(ctx):
+        f, cfg = ri.count, ri.cfg
+        Q = {x for x in cfg.stmt_nodes() if x.kind == 'stmt' and isinstance(x.ast, ast.Assign) and len(x.ast.targets) == 1
+             and ctx.canon(x.ast.targets[0], f) == 'E.quota'}
+        users = set()
+        for x in cfg.stmt_nodes():
+            if x in Q:
+                continue
+            for c in calls_at(x):
+                p_ = ctx.canon(c.func, f)
+                if p_ in ('E.logAction', 'E.newRound') or (isinstance(c.func, ast.Name) and c.func.id in ('hasQuota', 'iterate', 'iterateStep', 'batchDefeat')):
+                    users.add(x)
+            heads = [x.ast.test] if x.kind == 'test' else ([x.ast.iter] if x.kind == 'iter' else ([x.ast] if x.kind == 'stmt' else []))
+            heads = [h for h in heads if not isinstance(h, (ast.FunctionDef, ast.ClassDef))]
+            for h in heads:
+                for sub in ast.walk(h):
+                    if isinstance(sub, ast.Attribute) and isinstance(sub.ctx, ast.Load) and ctx.canon(sub, f) == 'E.quota':
+                        users.add(x)
+        early = cfg.reach([cfg.entry], avoid=Q, include_start=True) & users
+        ctx.check(bool(Q) and not early, R, f.node, f, 'rule %s computes its quota before the first action is recorded or any tally is compared with it' % ri.short,
+                  'an assignment to E.quota dominates every use (first at line %s)' % (sorted(x.line for x in Q)[0] if Q else '?'),
+                  'line %s uses or records E.quota before count() has computed it (it is still the zero set by Election.count)'
+                  % (sorted(x.line for x in early)[0] if early else '?'))
     ctx.floor(R, 'quota expressions', nq, 12)
 
 
